@@ -50,7 +50,7 @@ ASSUMPTIONS = [
     "warnings are ignored",
 ]
 SHRINK_HINTS = {"keep_keys": ["name", "k", "kind", "at", "blk", "arr", "tag", "mtag", "link", "positions",
-                              "extents", "data", "type"]}
+                              "extents", "data", "type", "frame", "dtype"]}
 
 # ------------------------------------------------------------------ unit pools
 
@@ -92,7 +92,7 @@ def axis_unit(draw):
 
 
 @st.composite
-def descriptor(draw, extent, arr, earlier):
+def descriptor(draw, extent, arr, earlier, block=None):
     """one well-formed descriptor for an axis of ``extent`` samples"""
     kinds = ["set", "setl", "sampled", "sampled", "range", "range"]
     if len(arr["shape"]) == 1 and (arr["unit"] is None or arr["unit"] in FAMILY_OF):
@@ -101,7 +101,15 @@ def descriptor(draw, extent, arr, earlier):
              if len(a["shape"]) == 1 and a["shape"][0] == extent and (a["unit"] is None or a["unit"] in FAMILY_OF)]
     if cands:
         kinds += ["link", "link"]
+    frames = [fr for fr in (block or {}).get("frames", []) if fr["rows"] == extent]
+    if frames:
+        kinds += ["fset", "frange", "frange"]
     k = draw(st.sampled_from(kinds))
+    if k in ("fset", "frange"):
+        fr = draw(st.sampled_from(frames))
+        want = "str" if k == "fset" else "float"
+        cols = [i for i, c in enumerate(fr["cols"]) if c["dtype"] == want]
+        return {"k": "set" if k == "fset" else "range", "flink": {"frame": fr["name"], "col": draw(st.sampled_from(cols))}}
     if k == "set":
         return {"k": "set", "labels": draw(st.sampled_from([None, []]))}
     if k == "setl":
@@ -123,16 +131,19 @@ def descriptor(draw, extent, arr, earlier):
 
 
 @st.composite
-def array(draw, name, earlier, shape=None):
+def array(draw, name, earlier, shape=None, block=None):
     if shape is None:
         rank = draw(st.sampled_from([1, 1, 2, 2, 3]))
-        shape = [draw(st.integers(1, 4)) for _ in range(rank)]
+        ext = st.integers(1, 4)
+        if block and block.get("frames"):
+            ext = st.one_of(ext, st.just(block["frames"][0]["rows"]))
+        shape = [draw(ext) for _ in range(rank)]
     unit = draw(axis_unit())
     if len(shape) > 1 and draw(st.integers(0, 5)) == 0:
         unit = draw(st.sampled_from(COMPOUND_ARRAY_UNITS))
     arr = {"name": name, "type": draw(types), "shape": list(shape), "data": "ramp", "unit": unit, "dims": []}
     for n in shape:
-        arr["dims"].append(draw(descriptor(n, arr, earlier)))
+        arr["dims"].append(draw(descriptor(n, arr, earlier, block)))
     return arr
 
 
@@ -197,9 +208,19 @@ def section_tree(draw, depth):
 
 @st.composite
 def block(draw, name):
-    b = {"name": name, "type": draw(types), "arrays": [], "tags": [], "mtags": [], "groups": [], "sources": []}
+    b = {"name": name, "type": draw(types), "arrays": [], "frames": [], "tags": [], "mtags": [], "groups": [],
+         "sources": []}
+    if draw(st.integers(0, 9)) < 4:
+        cols = [{"name": "name", "dtype": "str"}, {"name": "t", "dtype": "float"}]
+        if draw(st.booleans()):
+            cols.append({"name": "u", "dtype": "float"})
+        units = None
+        if draw(st.integers(0, 2)) > 0:
+            units = [None] + [draw(axis_unit()) for _ in cols[1:]]
+        b["frames"].append({"name": "df0", "type": draw(types), "cols": cols, "rows": draw(st.integers(1, 4)),
+                            "tail": [], "units": units})
     for i in range(draw(st.integers(1, 4))):
-        b["arrays"].append(draw(array("a%d" % i, b["arrays"])))
+        b["arrays"].append(draw(array("a%d" % i, b["arrays"], block=b)))
     signal = list(b["arrays"])
     for i in range(draw(st.integers(0, 3))):
         refs = draw(references(b, signal))
@@ -225,10 +246,10 @@ def block(draw, name):
         n = draw(st.integers(1, 3))
         shape = [n] if (rank == 1 and draw(st.integers(0, 2)) > 0) else [n, rank]
         pname, ename = "p%d" % i, "e%d" % i
-        b["arrays"].append(draw(array(pname, b["arrays"], shape=shape)))
+        b["arrays"].append(draw(array(pname, b["arrays"], shape=shape, block=b)))
         ext = None
         if draw(st.booleans()):
-            b["arrays"].append(draw(array(ename, b["arrays"], shape=shape)))
+            b["arrays"].append(draw(array(ename, b["arrays"], shape=shape, block=b)))
             ext = ename
         b["mtags"].append({"name": "mt%d" % i, "type": draw(types), "positions": pname, "extents": ext,
                            "units": units, "refs": [r["name"] for r in refs], "features": draw(features(b))})
@@ -254,6 +275,13 @@ def touched(model, inj):
         return {inj["at"].split(":", 1)[1]}
     out = set()
     bn = inj["blk"]
+    if "frame" in inj:
+        for b in model["blocks"]:
+            if b["name"] == bn:
+                for a in b["arrays"]:
+                    if any(d.get("flink", {}).get("frame") == inj["frame"] for d in a["dims"]):
+                        out.add("%s/%s" % (bn, a["name"]))
+        return out
     if "arr" in inj:
         out.add("%s/%s" % (bn, inj["arr"]))
     for role, key in (("tags", "tag"), ("mtags", "mtag")):
@@ -284,6 +312,7 @@ def pick_injection(draw, model, near=None):
         if rel:
             cands = rel
     kinds = sorted({c["kind"] for c in cands})
+    kinds += [k for k in kinds if k in ("frame-append-row", "link-data")] * 3     # rarely eligible kinds
     k = draw(st.sampled_from(kinds))
     return draw(st.sampled_from([c for c in cands if c["kind"] == k]))
 
@@ -325,7 +354,10 @@ def make_data(arr):
 
 def append_dim(blk, da, d):
     k = d["k"]
-    if k == "set":
+    if "flink" in d:
+        dim = da.append_set_dimension() if k == "set" else da.append_range_dimension()
+        dim.link_data_frame(blk.data_frames[d["flink"]["frame"]], d["flink"]["col"])
+    elif k == "set":
         da.append_set_dimension() if d.get("labels") is None else da.append_set_dimension(list(d["labels"]))
     elif k == "sampled":
         da.append_sampled_dimension(d["interval"], unit=d.get("unit"), offset=d.get("offset"))
@@ -346,10 +378,26 @@ def create_array(blk, a):
     return da
 
 
+def frame_row(fr, i):
+    return tuple(R.column_values(fr, c)[i] for c in range(len(fr["cols"])))
+
+
+def create_frame(blk, fr):
+    from collections import OrderedDict
+    cols = OrderedDict((c["name"], str if c["dtype"] == "str" else float) for c in fr["cols"])
+    df = blk.create_data_frame(fr["name"], fr["type"], col_dict=cols)
+    df.append_rows([frame_row(fr, i) for i in range(R.frame_rows(fr))])
+    if fr.get("units"):
+        df.units = list(fr["units"])
+    return df
+
+
 def build(f, model):
     nix = _nix()
     for b in model["blocks"]:
         blk = f.create_block(b["name"], b["type"])
+        for fr in b.get("frames", []):
+            create_frame(blk, fr)
         for a in b["arrays"]:
             create_array(blk, a)
         for a in b["arrays"]:
@@ -437,6 +485,11 @@ def inject(f, model, inj):
         return
     blk = f.blocks[inj["blk"]]
     bm = [b for b in model["blocks"] if b["name"] == inj["blk"]][0]
+    if kind == "frame-append-row":
+        after = R.apply_injection(model, inj)
+        fa = R.find_frame([b for b in after["blocks"] if b["name"] == inj["blk"]][0], inj["frame"])
+        blk.data_frames[inj["frame"]].append_rows([frame_row(fa, R.frame_rows(fa) - 1)])
+        return
     if "arr" in inj and kind != "add-ref":
         da = blk.data_arrays[inj["arr"]]
         am = R.find_array(bm, inj["arr"])
@@ -460,7 +513,15 @@ def inject(f, model, inj):
             elif kind == "interval":
                 dim.sampling_interval = inj["value"]
             elif kind == "axis-unit":
-                dim.unit = inj["unit"]
+                dm = am["dims"][inj["j"]]
+                if "flink" in dm:
+                    # the unit of a frame-linked descriptor is the unit of the frame column
+                    after = R.apply_injection(model, inj)
+                    fa = R.find_frame([b for b in after["blocks"] if b["name"] == inj["blk"]][0],
+                                      dm["flink"]["frame"])
+                    blk.data_frames[fa["name"]].units = list(fa["units"])
+                else:
+                    dim.unit = inj["unit"]
             else:
                 raise ValueError(kind)
         return
@@ -560,6 +621,17 @@ def compare(ctx, case, expected, reported, sub, injkinds, targets):
     return nviol
 
 
+def raise_class(model):
+    """input class of a file on which validation itself fails"""
+    for b in model["blocks"]:
+        for a in b["arrays"]:
+            for d in a["dims"]:
+                if d["k"] == "range" and "flink" in d and \
+                        not R.find_frame(b, d["flink"]["frame"]).get("units"):
+                    return "range-dimension-linked-to-frame-without-units"
+    return "other"
+
+
 def injection_targets(model, injs):
     out = set()
     cur = model
@@ -569,6 +641,12 @@ def injection_targets(model, injs):
         else:
             if "arr" in inj and inj["kind"] != "add-ref":
                 out.add(R.path_of("array", inj["blk"], inj["arr"]))
+            if "frame" in inj:
+                for b in cur["blocks"]:
+                    if b["name"] == inj["blk"]:
+                        for a in b["arrays"]:
+                            if any(d.get("flink", {}).get("frame") == inj["frame"] for d in a["dims"]):
+                                out.add(R.path_of("array", b["name"], a["name"]))
             if "tag" in inj:
                 out.add(R.path_of("tag", inj["blk"], inj["tag"]))
             if "mtag" in inj:
@@ -603,8 +681,9 @@ def run_case(case, ctx):
         try:
             res = f.validate()
         except Exception as exc:  # noqa
-            ctx.violation("C14/api/validate-raised/%s" % ("+".join(injkinds) or "well-formed-file"), case,
-                          {"exception": type(exc).__name__, "text": str(exc)[:200]})
+            ctx.violation("C14/api/validate-raised/%s" % raise_class(final), case,
+                          {"exception": type(exc).__name__, "text": str(exc)[:200],
+                           "file": "well-formed" if not expected else "with inconsistencies"})
             res = None
         reported = None
         if res is not None:
@@ -618,12 +697,13 @@ def run_case(case, ctx):
         if case.get("cli"):
             f.close()
             closed = True
-            try:
-                byid = cli_errors(path)
-            except Exception as exc:  # noqa
-                ctx.violation("C14/cli/validate-raised/%s" % ("+".join(injkinds) or "well-formed-file"), case,
-                              {"exception": type(exc).__name__, "text": str(exc)[:200]})
-                byid = None
+            byid = None
+            if reported is not None:
+                try:
+                    byid = cli_errors(path)
+                except Exception as exc:  # noqa
+                    ctx.violation("C14/cli/validate-raised/%s" % raise_class(final), case,
+                                  {"exception": type(exc).__name__, "text": str(exc)[:200]})
             if byid is not None and reported is not None:
                 rep2 = {}
                 for oid, msgs in byid.items():
@@ -651,6 +731,7 @@ def run_case(case, ctx):
             ranks.add(len(a["shape"]))
             for d in a["dims"]:
                 kinds_desc.add("range-link" if "link" in d else
+                               (d["k"] + "-frame-link") if "flink" in d else
                                ("set-labels" if d["k"] == "set" and d.get("labels") else d["k"]))
     tagged = any(t["refs"] and t.get("units") for b in base["blocks"] for t in b["tags"] + b["mtags"])
     ekinds = {k for _, k, _, _ in R.objects(base)}
@@ -658,6 +739,8 @@ def run_case(case, ctx):
         ekinds.add("feature")
     if any(s.get("props") for _, s in R.iter_sections(base.get("sections", []), [])):
         ekinds.add("property")
+    if any(b.get("frames") for b in base["blocks"]):
+        ekinds.add("frame")
     nontrivial = tagged and len(kinds_desc) >= 2 and (len(injs) >= 1 or len(ekinds) >= 3)
     classes = ["injections:%d" % len(injs), "cli" if case.get("cli") else "api-only",
                "blocks:%d" % len(base["blocks"])]
@@ -688,7 +771,8 @@ def run_case(case, ctx):
              sample={"inj": injs, "cli": case.get("cli", False),
                      "file": {"blocks": [{"name": b["name"],
                                           "arrays": [{"shape": a["shape"],
-                                                      "dims": [("link" if "link" in d else d["k"])
+                                                      "dims": [("link" if "link" in d else
+                                                                d["k"] + ("-flink" if "flink" in d else ""))
                                                                for d in a["dims"]]} for a in b["arrays"]],
                                           "tags": len(b["tags"]), "mtags": len(b["mtags"])}
                                          for b in base["blocks"]]},
@@ -708,7 +792,7 @@ def valid(case):
                 if len(a["dims"]) != len(a["shape"]):
                     return False
                 for d in a["dims"]:
-                    if d["k"] == "range" and "link" not in d and not d["ticks"]:
+                    if d["k"] == "range" and not R.is_linked(d) and not d["ticks"]:
                         return False
             for t in b["tags"] + b["mtags"]:
                 if any(u and not R.is_atomic_si(u) for u in (t.get("units") or [])):
